@@ -258,7 +258,9 @@ def run(rep, facts):
             continue
         a0 = ir.peel(sel[0][2][0])
         a1 = sel[0][2][1]
-        if a0[0] == 'field' and a0[2] == 'stop_fut' and any(x[0] == 'call' and x[1].endswith("parse_request") for x in ir.walk(a1)):
+        is_preamble = any((x[0] == 'call' and x[1].endswith("parse_request")) or
+                          (x[0] == 'agg' and x[1] in ('coroutine', 'closure') and "Token::parse_request" in F.norm(str(x[2]))) for x in ir.walk(a1))
+        if a0[0] == 'field' and a0[2] == 'stop_fut' and is_preamble:
             rep.ok("R14.4", "run/select-args", "select(self.stop_fut, preamble) — the stop listener is polled first", sn.loc())
         else:
             rep.violation("R14.4", "run/select-args", "select arguments are (%s, %s); the stop listener must come first and the second must be the preamble phase" % (ir.show(a0)[:60], ir.show(a1)[:60]), sn.loc())
